@@ -483,6 +483,15 @@ def judge_string(ctx, cssutils, src, content, is_url, feats):
         acc2 = pv2[0].uri if is_url else pv2[0].value
         if not content_equal(acc2, content) or pv2.cssText != out:
             ctx.violation('string.reparse', case, {'out': out, 'accessor_after': acc2, 'out2': pv2.cssText}, features=feats)
+            return
+        if is_url:
+            # written through the typed interface (what replaceUrls() does with the identity function): the same URL, the same text
+            ctx.count('oracle.uri-write-through')
+            it.uri = acc
+            acc3, out3 = it.uri, pv.cssText
+            back = parse_value(cssutils, out3)
+            if acc3 != acc or out3 != out or not back.wellformed or len(back) != 1 or back[0].uri != acc2:
+                ctx.violation('string.uri-write-through', case, {'uri_before': acc, 'uri_after': acc3, 'out_before': out, 'out_after': out3}, features=feats)
         ctx.seen('S' + src)
     except Exception as e:
         ctx.violation('string.exception', case, {'tb': core.short_tb(e)}, features=feats, site=core.raise_site(e))
